@@ -13,6 +13,7 @@ sys.path.insert(0, os.path.dirname(os.path.abspath(__file__)))
 from lib import Check, REPO, guarded, reslit, zlit, blit, listlit   # noqa: E402
 import c14 as G                                                    # noqa: E402  generators / literals shared with C14
 import gen_wkt                                                     # noqa: E402  (tools/)
+import gen_wktio                                                   # noqa: E402  (tools/) writer / reader assembly
 
 from geostructures import (GeoBox, GeoCircle, GeoLineString, GeoPoint, GeoPolygon,   # noqa: E402
                            MultiGeoLineString, MultiGeoPoint, MultiGeoPolygon)
@@ -283,6 +284,11 @@ def main():
     except Exception as ex:   # noqa
         rep = {'gen_wkt': f'failed({ex!r})'}
     ck.gen('WktGen.v', rep, 'WktGenEq.v')
+    try:
+        rep_io = gen_wktio.main(REPO, os.path.join(ck.rundir, 'WktIoGen.v'))
+    except Exception as ex:   # noqa
+        rep_io = {'gen_wktio': f'failed({ex!r})'}
+    ck.gen('WktIoGen.v', rep_io, 'WktIoGenEq.v')
     ck.props('Props/C13.v')
     rng = ck.rng
     quick = ck.tier == 'quick'
